@@ -141,14 +141,14 @@ Lemma hf_dir_decision c p ch st2 :
   hf_dir c p ch st2 =
   match dir_decision c (s_stack st2) p ch with
   | DSkip => WOk (if c_gitignore c then set_stack st2 (None :: s_stack st2) else st2) SkipDir
-  | DGiErr => WOk st2 (Abort AbGi)
+  | DGiErr => WOk st2 (Abort AbFs)
   | DEnter ms' => WOk (set_stack st2 ms') Continue
   end.
 Proof.
   unfold hf_dir, dir_decision.
   destruct (c_gitignore c) eqn:G.
   - destruct (should_skip_dir c (s_stack st2) p) eqn:S; [reflexivity|].
-    destruct (parse_dir_gi p ch) as [|m] eqn:E; reflexivity.
+    destruct (parse_dir_gi p ch) as [|m] eqn:E; [destruct (c_fatal c); reflexivity|reflexivity].
   - destruct (should_skip_dir c (s_stack st2) p); [reflexivity|]. rewrite set_stack_same. reflexivity.
 Qed.
 
@@ -368,8 +368,8 @@ Proof.
         { intros st'. unfold post. cbn [is_dir]. rewrite andb_true_r.
           unfold dir_decision in DD. destruct (should_skip_dir c (s_stack st) p); [discriminate|].
           destruct (c_gitignore c).
-          - destruct (parse_dir_gi p ch); [discriminate|]. inversion DD; subst.
-            rewrite s_stack_set, set_stack_twice. reflexivity.
+          - destruct (parse_dir_gi p ch); [destruct (c_fatal c); [discriminate|]|]; inversion DD; subst;
+              rewrite s_stack_set, set_stack_twice; reflexivity.
           - inversion DD; subst. reflexivity. }
         assert (Hinner : forall r e, agrees_inner ms' r e c -> agrees c (s_stack st) (post c (Dir n ch df) r) e).
         { intros r e A. destruct e as [st'|st' a|st' pc]; unfold agrees_inner in *; cbn [agrees] in *.
